@@ -1,0 +1,47 @@
+//go:build verif
+
+package block
+
+import "context"
+
+// Accessors used by the /verif conformance harness. Compiled only with -tags verif.
+
+// VerifHeaderInCh returns the channel SyncLoop receives header events on.
+func (m *Manager) VerifHeaderInCh() chan NewHeaderEvent { return m.headerInCh }
+
+// VerifDataInCh returns the channel SyncLoop receives data events on.
+func (m *Manager) VerifDataInCh() chan NewDataEvent { return m.dataInCh }
+
+// VerifRetrieveCh returns the signal channel of RetrieveLoop.
+func (m *Manager) VerifRetrieveCh() chan struct{} { return m.retrieveCh }
+
+// VerifDAIncluderCh returns the signal channel of DAIncluderLoop.
+func (m *Manager) VerifDAIncluderCh() chan struct{} { return m.daIncluderCh }
+
+// VerifHeaderStoreCh returns the signal channel of HeaderStoreRetrieveLoop.
+func (m *Manager) VerifHeaderStoreCh() chan struct{} { return m.headerStoreCh }
+
+// VerifDataStoreCh returns the signal channel of DataStoreRetrieveLoop.
+func (m *Manager) VerifDataStoreCh() chan struct{} { return m.dataStoreCh }
+
+// VerifTxNotifyCh returns the transaction notification channel.
+func (m *Manager) VerifTxNotifyCh() chan struct{} { return m.txNotifyCh }
+
+// VerifDAHeight returns the DA scan cursor.
+func (m *Manager) VerifDAHeight() uint64 { return m.daHeight.Load() }
+
+// VerifPublishBlock runs one block production step.
+func (m *Manager) VerifPublishBlock(ctx context.Context) error { return m.publishBlock(ctx) }
+
+// VerifSetPublishBlock replaces the production step (the seam the package's own tests use).
+func (m *Manager) VerifSetPublishBlock(fn func(ctx context.Context) error) { m.publishBlock = fn }
+
+// VerifPendingCounts returns the pending header and data counters.
+func (m *Manager) VerifPendingCounts() (uint64, uint64) {
+	return m.pendingHeaders.numPendingHeaders(), m.pendingData.numPendingData()
+}
+
+// VerifLastSubmitted returns the in-memory last-submitted header and data heights.
+func (m *Manager) VerifLastSubmitted() (uint64, uint64) {
+	return m.pendingHeaders.getLastSubmittedHeaderHeight(), m.pendingData.getLastSubmittedDataHeight()
+}
